@@ -261,6 +261,15 @@ theorem stream_epoch_bounded_counterexample :
     (([1, 1, 1, 1, 1, 1] : List Nat).map (fun w => streamShare 1000000000000000000 w 6)).sum
       = 1000000000000000002 := by decide
 
+/-- the suggested repair — `coin.Amount.Mul(record.Weight).Quo(totalWeight)`, i.e. multiply before
+    dividing — satisfies the clause for all weights: Σ ⌊a·w/W⌋ ≤ a whenever Σ w ≤ W -/
+theorem stream_epoch_bounded_after_repair (epochCoins W : Nat) (ws : List Nat) (h : ws.sum ≤ W) :
+    (ws.map (fun w => fixedShare epochCoins w W)).sum ≤ epochCoins :=
+  fixedShare_sum_le epochCoins W ws h
+
+example : (([1, 1, 1, 1, 1, 1] : List Nat).map (fun w => fixedShare 1000000000000000000 w 6)).sum
+    = 999999999999999996 := by decide
+
 /-- the three facts above about the expressions **as regenerated from the Go sources on this run**
     (`Gen.Incent.streamShare` from `CalculateGaugeRewards`, `Gen.Incent.lockShare` from
     `calculateAssetGaugeRewards`) -/
